@@ -3,25 +3,30 @@ import FlatccModel.VerifierSound4
 # C01 — verifier acceptance implies in-bounds, aligned reads
 
 `S` is the schema as the runtime sees it (the call lists of the generated verifiers, `WF S M` = what
-the schema compiler guarantees about them), `c` any byte string of any size with any content placed
-at an address aligned to `M`, the largest alignment the schema uses.  `Safe c a` = access `a`
-(offset, length, alignment) lies inside the `c.n` bytes and is aligned at its absolute address.
-`rootAcc`/`tableAcc` list every read the generated reader API makes for the type, to any depth
-(`fuel`), including every vector element, every string up to and including its terminator, every
-union member and union vector element.
+the schema compiler guarantees about them: ids < 32766, alignments are powers of two dividing `M`,
+vector max counts that cannot overflow, union ids ≥ 1), `c` ANY byte string of any size with any
+content at ANY address (`c.A`).  No placement of the buffer is assumed: the header check rejects an
+address that is not a multiple of 4, and every wider alignment is checked by the verifier on the
+absolute address.  `Safe c a` = access `a` (offset, length, alignment) lies inside the `c.n` bytes and
+is aligned at its absolute address.  `rootAcc`/`tableAcc` list every read the generated reader API
+makes for the type, to any depth (`fuel`), including every vector element, every string up to and
+including its terminator, every union member and union vector element, and — through
+`<field>_as_root` — everything inside nested buffers (nested table roots and nested struct roots),
+which the verifier checks as buffers of their own at the address where they lie.
 
-Not covered here (see DESIGN.md): nested_flatbuffer fields (known finding), the JSON printer's walk,
-the verifier's own reads (`C01_verifier_no_oob` is checked by the correspondence run only).
+Not covered here (see DESIGN.md): the JSON printer's walk, the verifier's own reads
+(checked by the correspondence run only).
 -/
 namespace Flatcc.Verifier
 
-/-- Main theorem: an accepted table root is safe to read through every accessor, for every buffer. -/
-theorem C01_table_root {c : Ctx} {M : Nat} (P : Placed c M) (S : Schema) (w : WF S M) (idHash t : Nat)
+/-- Main theorem: an accepted table root is safe to read through every accessor, for every buffer at every address. -/
+theorem C01_table_root {c : Ctx} {M : Nat} (hm4 : 4 ∣ M) (hmp : M ∣ 4294967296) (S : Schema) (w : WF S M) (idHash t : Nat)
     (h : verifyTableAsRoot S c idHash t = .ok ()) :
     ∀ fuel a, a ∈ rootAcc S c fuel t → Safe c a := by
   intro fuel a ha
   unfold verifyTableAsRoot at h
   obtain ⟨_, hh, h⟩ := bind_ok h
+  obtain ⟨P, _⟩ := verifyHeader_placed hm4 hmp hh
   obtain ⟨o, ho, h⟩ := bind_ok h
   obtain ⟨h04, ho2⟩ := rd32_ok ho
   have holt := r32_lt c 0
@@ -36,7 +41,7 @@ theorem C01_table_root {c : Ctx} {M : Nat} (P : Placed c M) (S : Schema) (w : WF
 
 /-- The size-prefixed variants: the root offset is read at 4, and every access stays inside the
 prefix-declared size (which the header check bounds by the given size). -/
-theorem C01_table_root_with_size {c : Ctx} {M : Nat} (P : Placed c M) (S : Schema) (w : WF S M) (idHash t : Nat)
+theorem C01_table_root_with_size {c : Ctx} {M : Nat} (hm4 : 4 ∣ M) (hmp : M ∣ 4294967296) (S : Schema) (w : WF S M) (idHash t : Nat)
     (h : verifyTableAsRootWithSize S c idHash t = .ok ()) :
     ∃ n', n' ≤ c.n ∧ ∀ fuel a, a ∈ (⟨4, 4, 4⟩ :: tableAcc S { c with n := n' } fuel (4 + r32 c 4) t) →
       Safe { c with n := n' } a := by
@@ -53,10 +58,10 @@ theorem C01_table_root_with_size {c : Ctx} {M : Nat} (P : Placed c M) (S : Schem
   obtain ⟨_, g4, hh⟩ := bind_ok hh
   obtain ⟨_, _, hh⟩ := bind_ok hh
   have e : sz + 4 = n' := pure_ok hh
-  have k3 := guard_ok g3; have k4 := guard_ok g4
-  simp only [decide_eq_true_eq] at k3 k4
+  have k1 := guard_ok g1; have k2 := guard_ok g2; have k3 := guard_ok g3; have k4 := guard_ok g4
+  simp only [decide_eq_true_eq] at k1 k2 k3 k4
   have hle : n' ≤ c.n := by omega
-  have P' : Placed { c with n := n' } M := ⟨P.m4, P.mpow, P.aligned, by have := P.size; show n' ≤ 4294967287; omega⟩
+  have P' : Placed { c with n := n' } M := ⟨hm4, hmp, k1, by show n' ≤ 4294967287; omega⟩
   refine ⟨n', hle, ?_⟩
   intro fuel a ha
   simp only [List.mem_cons] at ha
@@ -74,13 +79,14 @@ theorem C01_table_root_with_size {c : Ctx} {M : Nat} (P : Placed c M) (S : Schem
   · rw [← ho2] at ha
     exact table_sound P' S w 128 4 o maxLevels t (by omega) (by omega) h fuel a ha
 
-/-- struct roots: the struct lies inside the buffer and is aligned -/
-theorem C01_struct_root {c : Ctx} {M : Nat} (P : Placed c M) (idHash size align : Nat)
+/-- struct roots: the struct lies inside the buffer and is aligned at its address -/
+theorem C01_struct_root {c : Ctx} {M : Nat} (hm4 : 4 ∣ M) (hmp : M ∣ 4294967296) (idHash size align : Nat)
     (hal : align ∣ M) (hsize : size < 4294967296)
     (h : verifyStructAsRoot c idHash size align = .ok ()) :
     Safe c ⟨0, 4, 4⟩ ∧ Safe c ⟨r32 c 0, size, align⟩ := by
   unfold verifyStructAsRoot at h
   obtain ⟨_, hh, h⟩ := bind_ok h
+  obtain ⟨P, _⟩ := verifyHeader_placed hm4 hmp hh
   obtain ⟨o, ho, h⟩ := bind_ok h
   obtain ⟨h04, ho2⟩ := rd32_ok ho
   have holt := r32_lt c 0
@@ -89,26 +95,35 @@ theorem C01_struct_root {c : Ctx} {M : Nat} (P : Placed c M) (idHash size align 
   rw [Nat.zero_add, ho2] at this
   exact this
 
+/-- nested table roots, spelled out: if the enclosing table verifier accepted the field, everything the nested root accessor
+reads lies inside the enclosing buffer (indeed inside the nested bytes) and is aligned at its address -/
+theorem C01_nested_root_inside {c : Ctx} {s len : Nat} (hr : s + len ≤ c.n) {a : Access} (h : Safe (sub c s len) a) :
+    Safe c (shiftAcc s a) ∧ s ≤ (shiftAcc s a).addr ∧ (shiftAcc s a).addr + (shiftAcc s a).len ≤ s + len := by
+  refine ⟨safe_shift hr h, ?_, ?_⟩
+  · unfold shiftAcc; simp
+  · have := h.1
+    unfold shiftAcc; simp only []
+    have e : (sub c s len).n = len := rfl
+    omega
+
 /-- the reader never writes: an access is a read by construction (the model has no write constructor),
 and the verifier model's only effect is its verdict -/
 theorem C01_readonly (S : Schema) (c : Ctx) (fuel t : Nat) :
     ∀ a ∈ rootAcc S c fuel t, ∃ addr len align, a = ⟨addr, len, align⟩ := by
   intro a _; exact ⟨a.addr, a.len, a.align, rfl⟩
 
-/-- the hypotheses are satisfiable: a 16-aligned placement of a 64-byte buffer, and a schema with every kind of call -/
-example : Placed { buf := fun _ => 0, n := 64, A := 4096 } 16 :=
-  ⟨by decide, by decide, by decide, by decide⟩
-
+/-- the hypotheses are satisfiable: a schema with every kind of call, nested roots included -/
 example : WF { tables := [[⟨0, false, .scalar 4 4⟩, ⟨1, true, .string⟩, ⟨2, false, .vector 8 8 536870911⟩,
                            ⟨3, false, .stringVector⟩, ⟨4, false, .table 0⟩, ⟨5, false, .tableVector 0⟩,
-                           ⟨7, false, .union 0⟩, ⟨9, false, .unionVector 0⟩]],
+                           ⟨7, false, .union 0⟩, ⟨9, false, .unionVector 0⟩, ⟨10, false, .nestedTable 0 1⟩,
+                           ⟨11, false, .nestedStruct 32 16⟩]],
                unions := [[(1, .table 0), (2, .struct 16 16), (3, .string)]] } 16 := by
   refine ⟨?_, ?_⟩
   · intro fs hfs f hf
     simp only [List.mem_cons, List.mem_nil_iff, or_false] at hfs
     subst hfs
     simp only [List.mem_cons, List.mem_nil_iff, or_false] at hf
-    rcases hf with rfl | rfl | rfl | rfl | rfl | rfl | rfl | rfl <;> (unfold FieldWF; simp) <;> decide
+    rcases hf with rfl | rfl | rfl | rfl | rfl | rfl | rfl | rfl | rfl | rfl <;> (unfold FieldWF; simp) <;> decide
   · intro ms hms cm hcm
     simp only [List.mem_cons, List.mem_nil_iff, or_false] at hms
     subst hms
